@@ -3,10 +3,10 @@ From Bfe Require Import lib.Val model.HashSet.
 Import ListNotations.
 Open Scope Z_scope.
 
-(* TWO MODES.  Pool mode (hashkind = -1): [elemNum size fixed -1 [pop ...]]  pop = [1 idx xKey] Set | [2 idx] Get |
+(* TWO MODES.  Pool mode (hashkind = -1): [elemNum size fixed -1 [pop ...] 0]  pop = [1 idx xKey] Set | [2 idx] Get |
             [3] MaxElemSize, on byte_pool.NewBytePool / NewFixedBytePool directly; output [obs ...].
    Set mode:
-   input : [cap ksz fixed hashkind [op ...]]   op = [1 xKey h] Add | [2 xKey h] Remove | [3 xKey h] Exist | [4] Len
+   input : [cap ksz fixed hashkind [op ...] haSize]   op = [1 xKey h] Add | [2 xKey h] Remove | [3 xKey h] Exist | [4] Len
             (h = hashFunc(key) as computed by the harness with the hash function named by hashkind)
    output: [-1 1] if NewHashSet fails (cap <= 0 or ksz <= 0), else
            [ [obs ...] [ [ha...] [next...] freeNode length [xSlot ...] ] ]   -- final internal arrays *)
@@ -21,14 +21,14 @@ Definition dec_op (v : val) : option op :=
   end.
 Definition dec_input (v : val) : option (cfg * list op) :=
   match v with
-  | VL [VZ cp; VZ ks; VZ fx; VZ _; VL ops] =>
+  | VL [VZ cp; VZ ks; VZ fx; VZ _; VL ops; VZ nbk] =>
     match all_some (map dec_op ops) with
-    | Some o => Some ({| cap := cp; ksz := ks; fixed := negb (fx =? 0) |}, o)
+    | Some o => Some ({| cap := cp; ksz := ks; fixed := negb (fx =? 0); nb := nbk |}, o)
     | None => None
     end
   | _ => None
   end.
-Definition cfg_ok (c : cfg) : bool := (0 <? cap c) && (0 <? ksz c).
+Definition cfg_ok (c : cfg) : bool := (0 <? cap c) && (0 <? ksz c) && (0 <? nb c).
 
 Definition dump (s : st) : val := VL [vLZ (ha s); vLZ (nxt s); VZ (free s); VZ (len s); vLB (slots s)].
 
@@ -40,12 +40,12 @@ Definition dec_pop (v : val) : option pop :=
   | _ => None
   end.
 Definition is_pool (v : val) : bool :=
-  match v with VL [_; _; _; VZ hk; _] => hk =? -1 | _ => false end.
+  match v with VL [_; _; _; VZ hk; _; _] => hk =? -1 | _ => false end.
 Definition dec_pool (v : val) : option (cfg * list pop) :=
   match v with
-  | VL [VZ n; VZ sz; VZ fx; VZ _; VL ops] =>
+  | VL [VZ n; VZ sz; VZ fx; VZ _; VL ops; VZ _] =>
     match all_some (map dec_pop ops) with
-    | Some o => Some ({| cap := n; ksz := sz; fixed := negb (fx =? 0) |}, o)
+    | Some o => Some ({| cap := n; ksz := sz; fixed := negb (fx =? 0); nb := 1 |}, o)
     | None => None
     end
   | _ => None
@@ -58,11 +58,20 @@ Definition kh (ops : list op) : list (key * Z) := flat_map op_kh ops.
 Definition functional_b (l : list (key * Z)) : bool :=
   forallb (fun p => forallb (fun q => negb (key_eqb (fst p) (fst q)) || (snd p =? snd q)) l) l.
 
+Definition with_nb (c : cfg) (n : Z) : cfg := {| cap := cap c; ksz := ksz c; fixed := fixed c; nb := n |}.
+Definition run_cfg (c : cfg) (ops : list op) : val :=
+  if cfg_ok c then let '(s, obs) := run_ops c (init c) ops in VL [vLZ obs; dump s] else VErr 1.
 Definition run_set (v : val) : val :=
   match dec_input v with
   | None => VErr 0
-  | Some (c, ops) =>
-    if cfg_ok c then let '(s, obs) := run_ops c (init c) ops in VL [vLZ obs; dump s] else VErr 1
+  | Some (c, ops) => run_cfg c ops
+  end.
+(* the number of buckets the implementation really uses (length of the dumped ha array); the input's haSize
+   when the observation has no dump.  A different load factor is not a disagreement. *)
+Definition observed_nb (c : cfg) (o : val) : Z :=
+  match o with
+  | VL [_; VL (VL h :: _)] => Z.of_nat (length h)
+  | _ => nb c
   end.
 Definition run_pool (v : val) : val :=
   match dec_pool v with
@@ -74,12 +83,13 @@ Definition run_C20 (v : val) : val := if is_pool v then run_pool v else run_set 
 (* exact agreement with the array model (observations and final arrays), and the array model's run is
    certified step by step against the bucket-list model (representation invariant + abstraction) *)
 Definition agree_C20 (v o : val) : bool :=
-  val_eqb (run_C20 v) o &&
-  (is_pool v ||
-   match dec_input v with
-   | Some (c, ops) => if cfg_ok c then sim_check c (init c) bl_init ops else true
-   | None => true
-   end).
+  if is_pool v then val_eqb (run_pool v) o
+  else match dec_input v with
+       | Some (c, ops) =>
+         let c' := with_nb c (observed_nb c o) in
+         val_eqb (run_cfg c' ops) o && (if cfg_ok c' then sim_check c' (init c') bl_init ops else true)
+       | None => val_eqb (VErr 0) o
+       end.
 
 (* THE PROPERTY, on the implementation's observations: they are those of a bounded mathematical set.
    Tolerated: adding a key that is already a member to a full set may answer "ok" or "full". *)
